@@ -19,6 +19,8 @@ FUNC2CHECKS = [
 ]
 
 def checks_for(detail):
+    if os.environ.get('MUT_CHECKS'):
+        return os.environ['MUT_CHECKS'].split()
     fn = detail.split(':')[0].strip()
     for keys, cs in FUNC2CHECKS:
         if any(fn.startswith(k) for k in keys):
@@ -56,9 +58,12 @@ def main(f):
             tri.add((p[0], p[1]))
     surv = [l.rstrip('\n').split('\t') for l in open('%s/%s.result.tsv' % (M.OUT, f))]
     surv = [p for p in surv if p[3] == 'SURVIVED' and (f, p[0]) not in tri]
+    only = os.environ.get('MUT_ONLY')
+    if only:
+        surv = [p for p in surv if p[0] in only.split(',')]
     v = M.setup_check()
     orig = open(M.SRC + '/' + f).read()
-    resf = '%s/%s.recheck2.tsv' % (M.OUT, f)
+    resf = '%s/%s.%s.tsv' % (M.OUT, f, os.environ.get('MUT_OUT', 'recheck2'))
     done = set(l.split('\t')[0] for l in open(resf)) if os.path.exists(resf) else set()
     fh = open(resf, 'a')
     for p in surv:
